@@ -16,6 +16,9 @@ import copy
 from . import norm as N
 
 
+TRUNCATED = []     # (first line, number of paths) of every enumeration that hit its cap in this process
+
+
 class Ev(object):
     __slots__ = ('kind', 'node', 'truth', 'env')
 
@@ -296,6 +299,9 @@ def enumerate_paths(stmts, cap=5000):
                     env.pop(s.target.id, None)
         paths.append(evs + [Ev('end', ast.Pass(), None, env)])
     walk(list(stmts), [], {}, {}, {})
+    if len(paths) >= cap:
+        # the enumeration was cut short: rules quantifying over "every path" have not seen every path
+        TRUNCATED.append((getattr(stmts[0], 'lineno', 0) if stmts else 0, len(paths)))
     return paths
 
 
